@@ -105,6 +105,58 @@ fn tab_after_break_in_tail(json: &[u8]) -> bool {
     json[end..].windows(2).any(|w| (w[0] == b'\n' || w[0] == b'\r') && w[1] == b'\t')
 }
 
+/// Open finding: a number / `true` / `false` / `null` followed by white space with two or
+/// more line breaks (a blank line) inside a JSON array or object is read as a string with
+/// the folded line break attached (`[1\n\n]` gives `["1\n"]`).
+const SIG_JSON_BLANK_LINE: &str = "C26/json-input-misread/bare-scalar-before-blank-line";
+
+/// Gaps after bare (unquoted) JSON tokens that contain two or more line-break bytes.
+/// With `fix`, every line-break byte after the first in such a gap becomes a space
+/// (the text stays the same JSON value, the same length). Returns whether the shape occurred.
+fn bare_scalar_before_blank_line(json: &mut [u8], fix: bool) -> bool {
+    let mut found = false;
+    let mut i = 0;
+    let mut in_str = false;
+    while i < json.len() {
+        let b = json[i];
+        if in_str {
+            if b == b'\\' {
+                i += 1;
+            } else if b == b'"' {
+                in_str = false;
+            }
+            i += 1;
+            continue;
+        }
+        if b == b'"' {
+            in_str = true;
+            i += 1;
+            continue;
+        }
+        let bare = b.is_ascii_alphanumeric() || matches!(b, b'.' | b'+' | b'-');
+        if bare && i + 1 < json.len() && matches!(json[i + 1], b' ' | b'\t' | b'\n' | b'\r') {
+            let mut k = i + 1;
+            let mut breaks = 0;
+            while k < json.len() && matches!(json[k], b' ' | b'\t' | b'\n' | b'\r') {
+                if json[k] == b'\n' || json[k] == b'\r' {
+                    breaks += 1;
+                    if breaks >= 2 {
+                        found = true;
+                        if fix {
+                            json[k] = b' ';
+                        }
+                    }
+                }
+                k += 1;
+            }
+            i = k;
+            continue;
+        }
+        i += 1;
+    }
+    found
+}
+
 /// digits -> N: a stable shape of an error message
 fn err_shape(msg: &str) -> String {
     let mut out = String::new();
@@ -158,7 +210,34 @@ fn first_diff(a: &J, b: &J) -> String {
     }
 }
 
+/// The oracle plus attribution to the blank-line finding: a case whose JSON rendering has a
+/// bare scalar followed by a blank line, that fails, and that passes once only those gaps
+/// are rewritten (same JSON value) is that finding, whatever the symptom.
 pub fn check_case(c: &Case, st: &mut Stats) -> Result<Outcome, Fail> {
+    let f = match check_inner(c, st) {
+        Err(f) => f,
+        ok => return ok,
+    };
+    if f.sig.starts_with("C26/crash") || f.sig == SIG_JSON_TAIL_TAB {
+        return Err(f);
+    }
+    let mut fixed = c.clone();
+    if bare_scalar_before_blank_line(&mut fixed.json, true) {
+        if let Ok(o) = check_inner(&fixed, st) {
+            if o != Outcome::Discarded {
+                let mut d = f.detail.clone();
+                if let Some(m) = d.as_object_mut() {
+                    m.insert("symptom".into(), json!(f.sig));
+                    m.insert("attributed_because".into(), json!("the same case passes when the line breaks after bare JSON scalars are reduced to one"));
+                }
+                return Err(Fail::new(SIG_JSON_BLANK_LINE, d));
+            }
+        }
+    }
+    Err(f)
+}
+
+fn check_inner(c: &Case, st: &mut Stats) -> Result<Outcome, Fail> {
     let prog = tmp_named("c26p", ".jq", c.program.as_bytes());
     let ps = prog.to_string_lossy().to_string();
     let routes = [
@@ -201,14 +280,14 @@ pub fn check_case(c: &Case, st: &mut Stats) -> Result<Outcome, Fail> {
             ));
         }
     }
+    if rs[0].out.code != Some(0) && rs[0].err.contains("tab character used for indentation") && tab_after_break_in_tail(&c.json) {
+        return Err(Fail::new(SIG_JSON_TAIL_TAB, detail(&rs, json!({}))));
+    }
     for r in &rs[1..] {
         if r.out.code != rs[0].out.code {
             // name the route that failed and the shape of its message
             let failing = if rs[0].out.code != Some(0) { &rs[0] } else { r };
             let ok_route = if rs[0].out.code != Some(0) { r.name } else { rs[0].name };
-            if failing.name == "json" && failing.err.contains("tab character used for indentation") && tab_after_break_in_tail(&c.json) {
-                return Err(Fail::new(SIG_JSON_TAIL_TAB, detail(&rs, json!({}))));
-            }
             return Err(Fail::new(
                 format!("C26/exit-status-differs/{}-fails-{}-succeeds/{}", failing.name, ok_route, err_shape(&failing.err)),
                 detail(&rs, json!({})),
@@ -271,13 +350,23 @@ fn tree_opts(simple: bool) -> YOpts {
     o
 }
 
+/// Shapes of C26's open findings that `three-syntaxes` does not generate (from
+/// known_findings.json; a finding that becomes `fixed` is generated again).
+#[derive(Clone, Copy, Default)]
+struct Avoid {
+    /// a tab right after a line break in the JSON text's trailing white space
+    tail_tab: bool,
+    /// a blank line after a bare JSON scalar
+    blank_line: bool,
+}
+
 struct Generated {
     case: Case,
     tree: Y,
     prog: CoreProg,
 }
 
-fn gen_case(u: &mut Src, avoid_tail_tab: bool) -> Generated {
+fn gen_case(u: &mut Src, av: Avoid) -> Generated {
     // half of the trees use the simple palette: programs (string functions, sorting,
     // comparisons) hit more often; the other half carries every hostile string through
     // all three syntaxes
@@ -288,7 +377,10 @@ fn gen_case(u: &mut Src, avoid_tail_tab: bool) -> Generated {
     let j = gy::to_json_model(&tree);
     let ro = gj::render_opts(u);
     let mut json = gj::render(&j, u, ro).text;
-    if avoid_tail_tab && tab_after_break_in_tail(&json) {
+    if av.blank_line {
+        bare_scalar_before_blank_line(&mut json, true);
+    }
+    if av.tail_tab && tab_after_break_in_tail(&json) {
         // open finding: keep the trailing white space, but no tab right after a line break
         let end = json.iter().rposition(|b| !matches!(b, b' ' | b'\t' | b'\n' | b'\r')).map(|p| p + 1).unwrap_or(0);
         for i in end + 1..json.len() {
@@ -346,8 +438,8 @@ fn describe(c: &Case) -> Value {
     })
 }
 
-fn run_case(u: &mut Src, st: &mut Stats, avoid_tail_tab: bool) -> Result<(), Fail> {
-    let g = gen_case(u, avoid_tail_tab);
+fn run_case(u: &mut Src, st: &mut Stats, av: Avoid) -> Result<(), Fail> {
+    let g = gen_case(u, av);
     st.class_if(tab_after_break_in_tail(&g.case.json), "json:tab-after-line-break-in-tail");
     classify(&g, st);
     st.describe(|| describe(&g.case));
@@ -399,11 +491,11 @@ pub fn run(cx: &mut Ctx) {
             cx.replay_outcome(&name, r);
         }
     }
-    let avoid_tail_tab = cx.is_known(SIG_JSON_TAIL_TAB);
-    if avoid_tail_tab {
+    let av = Avoid { tail_tab: cx.is_known(SIG_JSON_TAIL_TAB), blank_line: cx.is_known(SIG_JSON_BLANK_LINE) };
+    if av.tail_tab || av.blank_line {
         cx.note("open finding: JSON renderings with a tab right after a line break in the trailing white space are not generated in `three-syntaxes`; `open-finding-shapes` generates them");
     }
-    cx.check("three-syntaxes", RULE, Budget { quick: 4_000, thorough: 200_000, max_len: 2500 }, |u, st| run_case(u, st, avoid_tail_tab));
+    cx.check("three-syntaxes", RULE, Budget { quick: 4_000, thorough: 200_000, max_len: 2500 }, |u, st| run_case(u, st, av));
     for cl in [
         "nontrivial", "outcome:values-compared", "outcome:all-three-error-alike", "outcome:multiple-results", "format-by-flag", "format-by-extension",
         "root-mapping", "root-sequence", "field", "index", "iterate", "pipe", "comma", "array-construct", "object-construct", "compare", "boolean",
@@ -415,7 +507,7 @@ pub fn run(cx: &mut Ctx) {
         "open-finding-shapes",
         "the same search with the shapes of C26's open findings generated (trailing JSON white space unrestricted); failures with a listed signature are counted, others are violations",
         Budget { quick: 400, thorough: 10_000, max_len: 2500 },
-        |u, st| run_case(u, st, false),
+        |u, st| run_case(u, st, Avoid::default()),
     );
     let t = TIMEOUTS.load(Ordering::Relaxed);
     if t > 0 {
